@@ -145,7 +145,7 @@ class Intrinsics:
         raise Unsupported(f'external call {name}')
 
     def call_bound(self, P, name, recv, args, kwargs):
-        if name.startswith('sym'):   # containers
+        if name.startswith('sym') and not name.startswith('symstr.'):   # containers (symstr.* are C06 string methods)
             return containers.call_bound(P, name, recv, args, kwargs)
         if P.loop_guard is not None and name.split('.')[0] in ('list', 'dict', 'set') \
                 and name.split('.')[1] in _MUTATORS:   # containers
@@ -499,6 +499,14 @@ class Intrinsics:
             import struct as _st
             mag = int.from_bytes(_st.pack('<d', abs(float(a))), 'little')
             return SymFloat(simp(mag + (b.bits / (1 << 63)) * (1 << 63)))
+        if isinstance(a, SymFloat):
+            # copysign(a, b): magnitude bits of a, sign bit of b
+            mag = a.bits % (1 << 63)
+            if isinstance(b, SymFloat):
+                return SymFloat(simp(mag + (b.bits / (1 << 63)) * (1 << 63)))
+            if isinstance(b, (float, int)) and not is_z3(b):
+                neg = math.copysign(1.0, float(b)) < 0
+                return SymFloat(simp(mag + ((1 << 63) if neg else 0)))
         raise Unsupported('math.copysign symbolic')
 
     # struct.pack('@d' | '<d' | 'd' | '=d', x): the 8 bytes of the binary64 pattern (little-endian host assumed)
